@@ -407,3 +407,41 @@ Definition ex_ec_bad (b : byte) : N :=
 Example ex_ec_consistent :
   ec_consistent ex_nfa ex_ec (alphabet 256) = true /\ ec_consistent ex_nfa ex_ec_bad (alphabet 256) = false.
 Proof. vm_compute. split; reflexivity. Qed.
+
+(** ** classes and the match loop: not only the sets of NFA states, the token
+    itself (rule number and length, as the scanner's loop computes them over
+    the NFA seen as an automaton) is the same for inputs that agree class by
+    class - from any state of the loop, with any remembered accepting pair. *)
+Lemma ec_consistent_nview_step a ec al : ec_consistent a ec al = true ->
+  forall b1 b2, In b1 al -> In b2 al -> ec b1 = ec b2 ->
+  forall i, nview_step a i b1 = nview_step a i b2.
+Proof.
+  intros H b1 b2 H1 H2 He i. destruct i as [| |z]; simpl; try reflexivity.
+  unfold nstep. rewrite (ec_consistent_move a ec al H b1 b2 H1 H2 He (Z.to_N z)). reflexivity.
+Qed.
+
+Theorem ec_consistent_scan a ec al : ec_consistent a ec al = true ->
+  forall w1 w2, Forall2 (fun b1 b2 => In b1 al /\ In b2 al /\ ec b1 = ec b2) w1 w2 ->
+  forall i n last, scan (nview a) i w1 n last = scan (nview a) i w2 n last.
+Proof.
+  intros H w1 w2 HF. unfold scan.
+  induction HF as [|b1 b2 t1 t2 [H1 [H2 He]] _ IH]; intros i n last; [reflexivity|].
+  cbn [gscan]. change (v_step (nview a)) with (nview_step a).
+  rewrite (ec_consistent_nview_step a ec al H b1 b2 H1 H2 He i).
+  destruct (v_stop (nview a) i); [reflexivity|]. apply IH.
+Qed.
+
+(** [nrun] over a concatenation is [nrun] over the parts (the subset
+    simulation has no hidden state besides the current set). *)
+Lemma nrun_app a w1 : forall w2 X,
+  nrun a (w1 ++ w2) X = match nrun a w1 X with Some Y => nrun a w2 Y | None => None end.
+Proof.
+  induction w1 as [|b t IH]; intros w2 X; simpl; [reflexivity|].
+  destruct (nstep a X b) as [X'|]; [apply IH|reflexivity].
+Qed.
+
+Example ex_ec_scan_same :
+  scan (nview ex_nfa) (v_start (nview ex_nfa) 0%Z false) [120; 121; 97] 0 (0%N, 0%nat) =
+  scan (nview ex_nfa) (v_start (nview ex_nfa) 0%Z false) [122; 120; 97] 0 (0%N, 0%nat) /\
+  scan (nview ex_nfa) (v_start (nview ex_nfa) 0%Z false) [122; 120; 97] 0 (0%N, 0%nat) = (2%N, 1%nat).
+Proof. vm_compute. split; reflexivity. Qed.
